@@ -84,6 +84,10 @@ def pyv(kind, text):
         return uuid.UUID(text)
     if kind == "json":
         return text  # already a JSON value (dict/list)
+    if kind == "literal":
+        import ast
+
+        return ast.literal_eval(text)  # Python literals JSON cannot carry: dicts with non-str keys, tuples
     raise HarnessError("unknown pyv kind %r" % kind)
 
 
